@@ -57,12 +57,33 @@ def closed_form(D, lmin, lmax):
     return sorted([_vec(g.levelvector), _coef(g.coefficient)] for g in sch)
 
 
+def queries(cs, v):
+    """answers of the query methods is_refinable / has_forward_neighbour in the current state, for the request vector, its neighbours and
+    two members of the sets (I_Queries of the trace specification)"""
+    probes = []
+    if len(v):
+        probes.append(list(v))
+        for d in range(len(v)):
+            for s in (-1, 1):
+                w = list(v)
+                w[d] += s
+                if w[d] >= 0:
+                    probes.append(w)
+    for S in (cs.active_index_set, cs.old_index_set):
+        probes += [list(x) for x in sorted(S)[:2]]
+    out = []
+    for w in probes[:8]:
+        w = [int(x) for x in w]
+        out.append([w, bool(cs.is_refinable(w)), bool(cs.has_forward_neighbour(w))])
+    return out
+
+
 def request(cs, v):
     """one update request; returns the event for the trace"""
     before = project(cs)
     ret = cs.update_adaptive_combi(list(v))
     after = project(cs)
-    ev = {'v': list(v), 'none': ret is None, 'dims': sorted(int(d) for d in ret) if ret is not None else []}
+    ev = {'v': list(v), 'none': ret is None, 'dims': sorted(int(d) for d in ret) if ret is not None else [], 'q': queries(cs, v)}
     if after == before:
         ev['same'] = True
     else:
@@ -72,7 +93,7 @@ def request(cs, v):
 
 
 def first_event(cs):
-    ev = {'v': [], 'none': True, 'dims': [], 'same': False}
+    ev = {'v': [], 'none': True, 'dims': [], 'same': False, 'q': queries(cs, [])}
     ev.update(project(cs))
     return ev
 
@@ -292,6 +313,7 @@ def run(tier, seed):
     except Exception as ex:
         rep.violation('P_NoException', {'origin': 're-initialised object', 'exception': type(ex).__name__}, {'exception': repr(ex)}, what='re-initialised scheme object raised %r' % ex)
     traces += adaptive_run_traces(rep, tier)
+    traces += fullgrid_traces(rep)
     inductive_step(rep, tier)
     return conclude(rep, traces)
 
@@ -379,7 +401,29 @@ def adaptive_run_traces(rep, tier):
     return out
 
 
+def fullgrid_traces(rep):
+    """init_full_grid (the scheme used for plotting the full grid space): the whole level box is old, nothing is active, the scheme is the
+    single full grid; requests on it change nothing"""
+    from sparseSpACE.combiScheme import CombiScheme
+    out = []
+    for D in (1, 2):      # (for D >= 3 the union of diagonals the library builds is not the level box - plotting helper, not driven)
+        for lmin in (0, 1, 2):
+            for lmax in range(lmin, lmin + 4):
+                cs = CombiScheme(D)
+                cs.init_full_grid(lmax, lmin)
+                evs = [first_event(cs)]
+                for v in ([lmax] * D, [lmin] * D, [lmax + 1] * D):
+                    evs.append(request(cs, v)[0])
+                out.append({'d': D, 'lmin': lmin, 'lmax': lmax, 'fresh': False, 'full': True, 'closed': [], 'events': evs, 'origin': 'full-grid'})
+                rep.count(1, key=('fullgrid', D, lmin, lmax))
+    return out
+
+
 def conclude(rep, traces):
+    for t in traces:
+        t.setdefault('full', False)
+        for e in t['events']:
+            e.setdefault('q', [])
     verdicts, st, trn = tlc.validate_traces('CombiSchemeTrace', traces, 'c01', unevaluable='P_SpecEvaluable')
     rep.cov['states'] += st
     rep.cov['transitions'] += trn
@@ -388,7 +432,10 @@ def conclude(rep, traces):
     drift_clauses = {}
     for tr, v in zip(traces, verdicts):
         for step, clause in v:
-            if clause.startswith('P_'):
+            if clause.startswith('P_') and tr.get('full'):
+                # init_full_grid is documented as violating the index-set properties (plotting only): never a verdict
+                drift_clauses['full-grid scheme: ' + clause] = drift_clauses.get('full-grid scheme: ' + clause, 0) + 1
+            elif clause.startswith('P_'):
                 reqs = [e['v'] for e in tr['events'][1:step]]
                 rep.violation(clause, {'d': tr['d'], 'lmin': tr['lmin'], 'lmax': tr['lmax'], 'origin': tr['origin'].split(' ')[0]},
                               {'trace': {k: tr[k] for k in ('d', 'lmin', 'lmax', 'fresh', 'closed')}, 'start': tr['events'][0],
